@@ -733,6 +733,7 @@ fn emit_fragment(em: &mut Emit, spec: &ItemSpec, src: &str, parsed: &syn::File, 
     // the HOST function), R5 iterator entry, R6 for-patterns, R9
     let mut frag_edits: Vec<Edit> = Vec::new();
     let mut frag_rewrites: Vec<String> = Vec::new();
+    hint_edits(spec, src, &c, &mut frag_edits);
     inner_edits(spec, src, f_block, &c, &mut frag_edits, &mut frag_rewrites);
     frag_edits.retain(|ed| ed.start >= s && ed.end <= e);
     apply_edits(src, s, e, &mut frag_edits, em, &spec.file);
@@ -949,6 +950,12 @@ fn fn_edits(
     }
     let mut c = rewrite::Collector::default();
     c.visit_block(block);
+    hint_edits(spec, src, &c, edits);
+    inner_edits(spec, src, block, &c, edits, rewrites);
+}
+
+/// loop invariants and before/after hints (shared by whole functions and lifted fragments)
+fn hint_edits(spec: &ItemSpec, src: &str, c: &rewrite::Collector, edits: &mut Vec<Edit>) {
     // loops
     for (anchor, lines) in &spec.loops {
         let hits: Vec<&(usize, usize, usize)> = c
@@ -1004,7 +1011,6 @@ fn fn_edits(
             });
         }
     }
-    inner_edits(spec, src, block, &c, edits, rewrites);
 }
 
 /// closure contracts / parameter typing (R6), iterator entry (R5), for-patterns (R6), R9 — shared by whole
